@@ -419,6 +419,18 @@ def llcp_inputs(tier):
     for n in (2175, 2176, 2178, 3000):
         out.append(('max-size', simpeer.hdr(32, 3, 32) + bytes(n)))
         out.append(('max-size', simpeer.hdr(4, 12, 32) + bytes([0]) + bytes(n)))
+    # service names that are not text in any encoding: CONNECT to the
+    # discovery SAP, straight to listening SAPs (4 = SNEP server, 16 = bound
+    # name) and to an idle SAP, SDREQ in an SNL; alone and inside an aggregate
+    for sn in (b'urn:\xff\xfe', b'\xc3\x28\xa0\xa1', bytes(range(0x80, 0xA0)),
+               b'\x00', b'urn:nfc:sn:\xe4'):
+        named = [simpeer.hdr(d, 4, 33) + bytes([6, len(sn)]) + sn
+                 for d in (1, 4, 16, 20)]
+        named.append(simpeer.hdr(1, 9, 1) + bytes([8, len(sn) + 1, 7]) + sn)
+        for f in named:
+            out.append(('binary-name', f))
+            out.append(('binary-name-agf', simpeer.hdr(0, 2, 0) + bytes(
+                [0, 2, 0, 0]) + len(f).to_bytes(2, 'big') + f))
     for b in [bytes(t) for n in (0, 1) for t in itertools.product(
             range(256), repeat=n)]:
         out.append(('short', b))
